@@ -8,6 +8,43 @@ import HtmlVerif.Model.Hook
 namespace HtmlVerif.Hook
 open HtmlVerif
 
+/-! ### the normal child rules, read off the value (no `flatten`, no loop) -/
+
+mutual
+  /-- as an element handed to `append` — on its own or anywhere inside a list/tuple: is it, or does it contain, something
+      that is no TagChild?  (`...` is one: only the display-hook wrapper ignores it, and only at top level) -/
+  def Val.badChild : Val → Bool
+    | .ellipsis => true
+    | .invalid => true
+    | .list vs => vs.anyBadChild
+    | .tuple vs => vs.anyBadChild
+    | _ => false
+  def Vals.anyBadChild : Vals → Bool
+    | .nil => false
+    | .cons v vs => v.badChild || vs.anyBadChild
+end
+
+/-- as a displayed value: rejected with TypeError -/
+def Val.rejected : Val → Bool
+  | .ellipsis => false
+  | v => v.badChild
+
+/-- a sequence value (opened by the child rules) -/
+def Val.isSeq : Val → Bool
+  | .list _ => true
+  | .tuple _ => true
+  | .tagList _ => true
+  | _ => false
+
+/-- `a` then `b`, the first failure wins -/
+def appendE (a b : Except Err (List Item)) : Except Err (List Item) :=
+  match a with
+  | .error e => .error e
+  | .ok x =>
+    match b with
+    | .error e => .error e
+    | .ok y => .ok (x ++ y)
+
 /-- what one statement (list) contributes *directly* to the sink it runs under, up to the first raise -/
 structure Direct (α : Type) where
   items   : List α          -- appended to the enclosing block's tag (or handed to the outermost hook), in order
@@ -23,6 +60,7 @@ mutual
       | .ok its => ⟨its, E, .done⟩                  -- None / Ellipsis: nothing; `_repr_html_` object: HTML; number: its str
       | .error e => ⟨[], E, .raised e⟩              -- invalid value: TypeError, nothing appended
     | .raise, E => ⟨[], E, .raised .exception⟩
+    | .rebind _, E => ⟨[], E, .done⟩                -- a new child-list object with the same nodes: nothing to see
     | .block t b, E =>
       if t ∈ E then ⟨[], E, .raised .runtimeError⟩   -- already entered: raises, nothing happens
       else
@@ -41,6 +79,7 @@ end
 def Prog.specTop : Prog → List TagId → Direct Val
   | .display v, E => ⟨[v], E, .done⟩
   | .raise, E => ⟨[], E, .raised .exception⟩
+  | .rebind _, E => ⟨[], E, .done⟩
   | .block t b, E =>
     if t ∈ E then ⟨[], E, .raised .runtimeError⟩
     else
@@ -60,6 +99,7 @@ mutual
   def Prog.blocks : Prog → List TagId → List (TagId × List Item)
     | .display _, _ => []
     | .raise, _ => []
+    | .rebind _, _ => []
     | .block t b, E => if t ∈ E then [] else (t, (b.spec (t :: E)).items) :: b.blocks (t :: E)
   def Progs.blocks : Progs → List TagId → List (TagId × List Item)
     | .nil, _ => []
@@ -82,6 +122,7 @@ mutual
   def Prog.flags : Prog → St → List Bool
     | .display _, _ => []
     | .raise, _ => []
+    | .rebind _, _ => []
     | .block t b, s =>
       decide (((Prog.block t b).exec s).1.hook = s.hook) ::
         (match enterTag t s with
